@@ -153,6 +153,12 @@ class Engine(OpsMixin, ExprMixin, CallMixin, StmtMixin, BuiltinsMixin):
         def m_i18n(self, s, args, kw, node):
             return [(s, args[0])]
         self.func_models["reuse.i18n._"] = m_i18n
+        import gettext as _gt
+
+        def m_gettext(self, s, args, kw, node):
+            return [(s, args[1])]       # bound method: (translations, message) -> message (extraction drops i18n)
+        self.func_models[_gt.NullTranslations.gettext] = m_gettext
+        self.func_models[_gt.GNUTranslations.gettext] = m_gettext
 
     # ---- verification of one function against its contract -----------------------------------------
     def index_loops(self, fnode):
